@@ -52,6 +52,7 @@ type lockCase struct {
 	Ep    string  `json:"ep"`
 	Pos   string  `json:"pos"`
 	OSig  string  `json:"osig"`
+	Pair  string  `json:"pair"`
 }
 
 type lockLine struct {
@@ -259,14 +260,36 @@ func mintBatch(dir string, seed int64, cases []lockCase, idx []int, out []lockLi
 		}
 		return pendingOut{secret, r, cashu.BlindedMessage{Amount: amt, B_: hex.EncodeToString(B_.SerializeCompressed()), Id: ks.Real}}
 	}
-	// one locked proof (2 sat) and two plain proofs (1 sat each) per case
+	// one locked proof (2 sat), two plain proofs (1 sat each) and a locked partner (2 sat) per case
+	partnerOf := func(c lockCase) lockCase {
+		p := c
+		switch c.Pair {
+		case "nsigs":
+			if c.NSigs == 2 {
+				p.NSigs = 1
+			} else {
+				p.NSigs = 2
+			}
+		case "keys":
+			p.NPub = c.NPub - 1
+		case "noflag":
+			p.Flag = "none"
+		}
+		if p.NSigs == 2 {
+			p.Wit = lockWit{Form: "list", Items: []string{"L", "P1"}}
+		} else {
+			p.Wit = lockWit{Form: "list", Items: []string{"L"}}
+		}
+		return p
+	}
 	var outs []pendingOut
 	for n, ci := range idx {
 		c := cases[ci]
 		outs = append(outs, mk(lockSecret(c, fmt.Sprintf("%08x%04x", ci, n)), 2))
 		outs = append(outs, mk(fmt.Sprintf("plain-a-%d-%d", seed, ci), 1), mk(fmt.Sprintf("plain-b-%d-%d", seed, ci), 1))
+		outs = append(outs, mk(lockSecret(partnerOf(c), fmt.Sprintf("%08x%04xff", ci, n)), 2))
 	}
-	total := uint64(len(idx)) * 4
+	total := uint64(len(idx)) * 6
 	q, err := w.Mint.RequestMintQuote(nut04.PostMintQuoteBolt11Request{Amount: total, Unit: "sat"})
 	if err != nil {
 		return err
@@ -288,9 +311,11 @@ func mintBatch(dir string, seed int64, cases []lockCase, idx []int, out []lockLi
 	}
 	for n, ci := range idx {
 		c := cases[ci]
-		locked := proofOf(3 * n)
+		locked := proofOf(4 * n)
 		locked.Witness = lockWitness(c, locked.Secret)
-		pa, pb := proofOf(3*n+1), proofOf(3*n+2)
+		pa, pb := proofOf(4*n+1), proofOf(4*n+2)
+		partner := proofOf(4*n + 3)
+		partner.Witness = lockWitness(partnerOf(c), partner.Secret)
 		var ins cashu.Proofs
 		switch c.Pos {
 		case "only":
@@ -301,6 +326,10 @@ func mintBatch(dir string, seed int64, cases []lockCase, idx []int, out []lockLi
 			ins = cashu.Proofs{pa, locked, pb}
 		case "last":
 			ins = cashu.Proofs{pa, locked}
+		case "pairfirst":
+			ins = cashu.Proofs{partner, locked}
+		case "pairlast":
+			ins = cashu.Proofs{locked, partner}
 		}
 		sum := ins.Amount()
 		var rerr error
